@@ -364,6 +364,8 @@ def desc(fn, op, ident=False):
         v = const_int(r[1])
         if v is None and r[1].get('fn'):
             return 'fn:%s' % r[1]['fn']
+        if v is None and r[1].get('val') is None and r[1].get('pretty'):
+            return 'const:%s' % r[1]['pretty']
         return 'const:%s' % (v if v is not None else r[1].get('val'))
     if k == 'param':
         return 'param%d' % r[1]
